@@ -31,6 +31,10 @@ def install_fault(fault):
         hit = kwargs.get('r0') == fault.get('r0', 0)
         if hit and fault.get('point', 'before') == 'before':
             fire(fault)
+        if not hit and fault.get('sibling_delay'):
+            # a slow sibling: still at work when the failure is noticed
+            import time
+            time.sleep(float(fault['sibling_delay']))
         orig(*args, **kwargs)
         if hit:
             fire(fault)
